@@ -30,7 +30,8 @@
       - the pipeline's queue is the abstract queue with the duplicate counts
         forgotten ([pipe_insert_leaf_keys]); a delete entry is a fresh pointer,
         i.e. an item not pending ([aq_insert_fresh_keys]). *)
-From Gnmi Require Import Base.Prelude Base.Lts Coalesce.QueueModel Coalesce.QueueLts Coalesce.QueueProofs.
+From Gnmi Require Import Base.Prelude Base.Lts Coalesce.QueueModel Coalesce.QueueLts Coalesce.QueueProofs
+  Coalesce.QueueLive.
 From Gnmi Require Stream.StreamLts Pipeline.PipelineModel.
 Open Scope list_scope.
 
@@ -190,6 +191,32 @@ Proof.
   destruct (qsim_next x sq (l_q s) (conj Hwf Habs)) as (cs' & Hn & _ & Habs').
   destruct (next_delivers_first s _ _ _ Hr Hcp Hn) as ((s' & pre & Hst & Hc & Hq & Hh & _) & _).
   exists s', pre. subst cs'. auto.
+Qed.
+
+(** ** fair runs (C11's liveness, Coalesce/QueueLive.v)
+
+    StreamLts has no fairness notion of its own: its convergence theorems
+    (C04_stream_converges) ASSUME a quiescent state, one clause of which is
+    "the subscriber's queue is empty".  What the queue contributes to that is
+    C11's [fair_delivery]: in every run of the queue LTS from the initial state
+    that is weakly fair to the consumer and to the producers, whenever the
+    queue abstracts to a StreamLts queue [sq], EVERY item of [sq] is eventually
+    popped by [Next] (with its duplicate count: [next_delivers_first]) -- so a
+    queue that is no longer inserted into drains. *)
+Theorem stream_queue_item_eventually_delivered run lab :
+  run 0%nat = l_init -> is_run lstep run lab ->
+  wfair lstep run lab cons_label ->
+  (forall n, wfair lstep run lab (fun l => l = LP n)) ->
+  forall k sq it,
+    q_abs (l_q (run k)) = abs_q sq -> In it (map fst sq) ->
+    exists j, (k <= j)%nat /\ delivers run lab j (enc it).
+Proof.
+  intros H0 Hrun Hc Hp k sq it Habs Hin.
+  apply (fair_delivery run lab H0 Hrun Hc Hp k (enc it)).
+  assert (E : q_queue (l_q (run k)) = map fst (q_abs (l_q (run k)))).
+  { unfold q_abs. rewrite map_map. cbn [fst]. now rewrite map_id. }
+  rewrite E, Habs. unfold abs_q. rewrite map_map. cbn [abs_entry fst].
+  apply in_map_iff in Hin as (xd & <- & Hx). apply in_map_iff. exists xd. auto.
 Qed.
 
 End Enc.
